@@ -413,6 +413,9 @@ func genC16(o *lib.Opts) {
 	}
 	// 3. runs that wrap the 1 MiB span of one size class (and of several at once)
 	wraps := [][2]int{{100000, 12}, {130000, 9}, {40000, 28}}
+	if modeSuffix == "~" && o.Tier != "thorough" {
+		wraps = [][2]int{{100000, 12}}
+	}
 	if o.Tier == "thorough" {
 		wraps = append(wraps, [2]int{200, 5500}, [2]int{1000, 1100}, [2]int{65536, 17}, [2]int{131071, 9})
 	}
